@@ -162,6 +162,8 @@ def iterate_concrete(eng, v):
         return npmodels.narr_rows(eng, v)
     if isinstance(v, (range, str, dict, set, frozenset)):
         return list(v)
+    if type(v).__name__ == "S2Arr" and v.transposed:  # k x n with concrete k: iterating / unpacking gives its k rows
+        return [v.__pyvc_getitem__(eng, i) for i in range(v.k)]
     if isinstance(v, Iter):
         if v.consumed:
             return []
